@@ -495,7 +495,9 @@ def memory(
         grid, range(2, shape.height - 2), shape.width // 2, Floor
     )
 
-    color_good, color_bad = choices(rng, list(colors), size=2, replace=False)
+    color_good, color_bad = choices(
+        rng, sorted(colors, key=lambda color: color.value), size=2, replace=False
+    )
     x_exit_good, x_exit_bad = choices(
         rng, [1, shape.width - 2], size=2, replace=False
     )
@@ -593,7 +595,12 @@ def memory_rooms(
     agent_orientation = choice(rng, list(Orientation))
     agent = Agent(agent_position, agent_orientation)
 
-    sample_colors = choices(rng, list(colors), size=num_exits, replace=False)
+    sample_colors = choices(
+        rng,
+        sorted(colors, key=lambda color: color.value),
+        size=num_exits,
+        replace=False,
+    )
 
     good_color = sample_colors[0]
     beacon_positions = positions[1 : 1 + num_beacons]
